@@ -317,7 +317,7 @@ func check(c *runCfg) int {
 	var cases []*replayCase
 	caseOf := map[*sym.Report]*replayCase{}
 	var st sym.Stats
-	var queries int
+	var queries, fallbackQ int
 	var solverS float64
 	funcs := map[string]bool{}
 	var samples []any
@@ -335,6 +335,7 @@ func check(c *runCfg) int {
 		st.Merges += r.Stats.Merges
 		queries += r.Queries
 		solverS += r.SolverS
+		fallbackQ += r.Fallback
 		for _, f := range r.Funcs {
 			funcs[f] = true
 		}
@@ -525,7 +526,7 @@ func check(c *runCfg) int {
 		"harness_names":                 hn,
 		"functions_encoded":             fl,
 		"functions_encoded_count":       len(fl),
-		"queries":                       map[string]any{"total": queries, "feasibility": st.FeasQueries, "assertion": st.AssertQueries, "proved": st.Proved, "violated_by_solver": st.Violated, "inconclusive": st.Inconclusive, "merged_branches": st.Merges},
+		"queries":                       map[string]any{"total": queries, "feasibility": st.FeasQueries, "assertion": st.AssertQueries, "proved": st.Proved, "violated_by_solver": st.Violated, "inconclusive": st.Inconclusive, "merged_branches": st.Merges, "decided_by_fallback_solver": fallbackQ},
 		"solver":                        map[string]any{"name": c.solver, "version": solverVersion(c.solver), "time_s": round2(solverS), "per_query_timeout_ms": c.timeoutMs},
 		"violations_reproduced":         nviol + nknown,
 		"known_findings_matched":        nknown,
@@ -541,6 +542,7 @@ func check(c *runCfg) int {
 		"global_state_scan":             scanInfo,
 		"explanation":                   "paths = feasible symbolic paths explored (state merging folds many concrete paths into one); transitions = SSA instructions executed symbolically; traces_validated_against_impl = solver models replayed natively against the real build with go test -overlay",
 	}
+	meta.Assumptions = append(append([]string{}, meta.Assumptions...), "solver verdicts: z3 4.8.12; a query it leaves undecided is handed once to cvc5 1.0 and then z3 5.1.0 (this run: "+fmt.Sprint(fallbackQ)+" such queries decided that way); any solver error line makes the query inconclusive")
 	ev := evidence{PropertyID: c.prop, Tier: c.tier, Seed: c.seed, Level: meta.Level, Coverage: cov, Assumptions: meta.Assumptions, WallS: round2(time.Since(t0).Seconds()), Violations: nviol}
 	if ev.Level == "" {
 		ev.Level = "model_checking"
